@@ -1,7 +1,7 @@
 """C11 — coalesce runs one inner call per key and shares its result with all waiters."""
 from ..core import graph, Call, peel, leaves, show, N, U
 from ..util import *
-from ..pair import Pair
+from ..pair import Pair, in_observability_macro
 
 EXPLANATION = (
     "Decides the registration discipline of the in-flight map on built MIR: (LOCK-REGION) the lookup and the "
@@ -40,6 +40,9 @@ def _map_calls(tr, b):
 
 
 def run(facts, tr, rep):
+    # shallow view: helper functions of the service and of its hand-written future are inlined (a `poll` split into
+    # `poll_leading` / `poll_waiting`, a `lead()` method); the registry's methods stay calls and are found by role
+    facts, tr = facts.shallow, tr.shallow
     sbs = service_call_bodies(facts, crate=CRATE)
     if not sbs:
         rep.anchor_missing("Service::call of the coalesce service")
@@ -99,6 +102,16 @@ def run(facts, tr, rep):
            "the in-flight registry is only modified one key at a time (insert/remove by key)" if nbulk == 0 else "%d bulk operation(s) on the registry" % nbulk)
     join_defs = {b.def_ for (b, _mc) in joins}
     remover_defs = {b.def_ for (b, _mc) in removers}
+    # a registry method that does nothing but hand its key to a remover releases too (e.g. a shared
+    # `cancel_registered(&mut Option<K>)` used by both destructors): methods of the same type that call a remover
+    # on every path that finds a key
+    reg_adts = {b.types[b.impl["self_ty"]].get("def") for (b, _mc) in removers if b.impl}
+    for _round in range(2):
+        for b in facts.crates[CRATE].bodies:
+            if b.kind != "fn" or b.def_ in remover_defs or not b.impl or b.types[b.impl["self_ty"]].get("def") not in reg_adts:
+                continue
+            if any(set(c.targets_def()) & remover_defs for c in graph(b).calls()) and not any(m == "insert" for (_c, m, _l) in _map_calls(tr, b)):
+                remover_defs.add(b.def_)
     # ---------------------------------------------------------------- LEADER
     sites = inner_calls(facts, sb)
     rep.floor("C11.inner-call-sites", len(sites), 1)
@@ -192,12 +205,18 @@ def run(facts, tr, rep):
         return
     rep.saw(poll)
     rep.saw(dropb)
-    # DROP: cancel dominated only by variant + key-present tests
+    # DROP: cancel dominated only by variant + key-present tests (on the destructor's fully inlined body: a shared
+    # "take the key and cancel" helper of the registry is looked through)
+    from ..inline import view_of
+    ffacts_, ftr_ = view_of(facts, "full")
+    tr_s, dropb_s = tr, dropb
+    dropb = ffacts_.bodies.get(dropb.def_) or dropb
+    tr = ftr_
     gd = graph(dropb)
     rel = [c for c in gd.calls() if is_release(dropb, c)]
     okd = bool(rel)
     for c in rel:
-        bools = [e for e in dominating_edges(tr, dropb, c.bb) if e["kind"] == "bool"]
+        bools = [e for e in dominating_edges(tr, dropb, c.bb) if e["kind"] == "bool" and not in_observability_macro(gd.term(e["bb"]))]
         somes = [e for e in dominating_edges(tr, dropb, c.bb) if e["kind"] == "enum" and e["label"] == "Some"]
         okd = okd and not bools and bool(somes)
     rep.ob("C11.DROP", skey(dropb, "cancel"), okd, "%s:%d" % (dropb.span["file"], dropb.span["line"]),
@@ -213,6 +232,7 @@ def run(facts, tr, rep):
             recv = peel(tr.expand(tr.operand(dropb, c.args[0], c.loc)))
             if recv[0] == "field":
                 key_field = recv[2]
+    tr, dropb = tr_s, dropb_s
     takes = [c for c in gp.calls() if c.name == "take" and "Option" in (c.path or "")]
     key_takes = []
     for c in takes:
@@ -282,9 +302,11 @@ def run(facts, tr, rep):
         # the shared result: complete() receives clones of the polled result
     # WAIT arm
     npend = 0
-    for i, blk in enumerate(poll.blocks):
-        for j, s in enumerate(blk["stmts"]):
-            if s["k"] == "assign" and s["lhs"]["l"] == 0 and s["rv"]["k"] == "agg" and s["rv"].get("variant") == "Pending":
+    for (i, j, node_) in ret_assigns(tr, poll):
+        for lf_ in leaves(node_):
+            lf_ = peel(lf_)
+            if lf_[0] == "agg" and tr.agg_of(lf_)[1].get("variant") == "Pending":
+                i, j = lf_[3], lf_[4]
                 npend += 1
                 # fine if it is the Pending edge of a delegated poll with the same cx
                 delegated = False
